@@ -45,9 +45,9 @@ def g0 : List Nat := [
   -- 0x70   p q r s t u v w x y z { | } ¯ (overline)  0x7F: not allocated
   0x0070, 0x0071, 0x0072, 0x0073, 0x0074, 0x0075, 0x0076, 0x0077,
   0x0078, 0x0079, 0x007A, 0x007B, 0x007C, 0x007D, 0x00AF, 0x0020,
-  -- 0x80   á à é è í ì ó ò ú ù Ñ Ç Ş ß (German sharp s) ¡ Ĳ
+  -- 0x80   á à é è í ì ó ò ú ù Ñ Ç Ş β ¡ Ĳ   (0x8D: the glyph of table E.1 is drawn like a beta; the library and other decoders (redsea) use U+03B2, some use the German sharp s U+00DF. JUDGEMENT, see DESIGN.md §6 C02: kept as U+03B2)
   0x00E1, 0x00E0, 0x00E9, 0x00E8, 0x00ED, 0x00EC, 0x00F3, 0x00F2,
-  0x00FA, 0x00F9, 0x00D1, 0x00C7, 0x015E, 0x00DF, 0x00A1, 0x0132,
+  0x00FA, 0x00F9, 0x00D1, 0x00C7, 0x015E, 0x03B2, 0x00A1, 0x0132,
   -- 0x90   â ä ê ë î ï ô ö û ü ñ ç ş ǧ ı (dotless i) ĳ
   0x00E2, 0x00E4, 0x00EA, 0x00EB, 0x00EE, 0x00EF, 0x00F4, 0x00F6,
   0x00FB, 0x00FC, 0x00F1, 0x00E7, 0x015F, 0x01E7, 0x0131, 0x0133,
